@@ -11,7 +11,7 @@
      split_ok count split items     the contract of a signal's split (proved for the three real splits)
    The theorems are generic in the signal and hold for logs_run / traces_run / metrics_run through
    split_n_spec_logs / _traces / _metrics. *)
-From Verif Require Import Common.Base C17.Model C17.Proofs1 C17.Proofs2 C17.Proofs3.
+From Verif Require Import Common.Base C17.Model C17.Bounded C17.Proofs1 C17.Proofs2 C17.ProofsB C17.Proofs3 Generated.C17Batch C17.Translated.
 From Coq Require Import Permutation.
 
 (* ---- split_n_spec: the three count-based splits ------------------------------------------------------
@@ -126,6 +126,72 @@ Theorem bp_cardinality_stale_refusal : forall R c now md (p : list R) st,
   bp_consume_stale c now md p st = (st, 1%N).
 Proof. exact (@stale_refusal). Qed.
 
+
+(* ---- Consume concurrent with or after Shutdown (outside "accepted before shutdown began", stated for the record)
+   Any schedule whatsoever, validated configuration: once every shard has returned, what was accepted (Consume
+   returned nil) is exactly what was emitted plus what sits in the channels of the returned shards — a payload
+   sent to a shard that has already returned is accepted (nil) while the buffer has room, and is never emitted
+   (bp_done_frozen); nothing is emitted twice or invented in any case (bp_conserves_anytime). *)
+Theorem bp_shutdown_accounting : forall R X count split (items : list R -> list X), split_ok count split items ->
+  forall c t0 ls, validate c = 0%N ->
+  let x := bp_run count split c t0 ls in
+  Forall (fun s => s_done s = true) (fst x) ->
+  Permutation (left_tagged items (fst x)) (accepted_tagged items c ls (snd x)).
+Proof. exact (@accounting_l). Qed.
+
+Theorem bp_done_frozen : forall R count split c now (s : shard (R := R)), s_done s = true ->
+  sh_recv count split c now s = s /\ sh_timer split c now s = s /\ sh_seen count split c now s = s.
+Proof. exact (@done_frozen_l). Qed.
+
+(* one shard per tuple of values: the groups are pairwise distinct in every reachable state *)
+Theorem bp_groups_distinct : forall R X count split (items : list R -> list X), split_ok count split items ->
+  forall c t0 ls, NoDup (map (@s_md R) (fst (bp_run count split c t0 ls))).
+Proof. exact (@groups_distinct_l). Qed.
+
+(* ---- the bounded newItem channel (capacity cap = runtime.NumCPU()) with blocked producers (Bounded.v) -------
+   bb_refines: the shards and the results of a bounded run are those of the unbounded run of its trace, in which
+   a Consume label stands exactly where the call got past its channel send (returned) — so every theorem above
+   about all unbounded runs holds of all bounded runs, "accepted" being the calls that have returned; a blocked
+   producer still holds its payload (it is neither accepted nor in the processor). *)
+Theorem bb_refines : forall R count split c cap t0 (bl : list (blabel (R := R))),
+  b_st (brun count split c cap t0 bl) = bp_run count split c t0 (b_trace (brun count split c cap t0 bl)).
+Proof. exact (@refines_l). Qed.
+
+(* no deadlock with a live shard: the next receive of shard i releases the producer that has waited longest on
+   it: its Consume returns nil and its payload is in the channel *)
+Theorem bb_progress : forall R X count split (items : list R -> list X), split_ok count split items ->
+  forall c cap t0 bl now i s md p ws',
+  let b := brun count split c cap t0 bl in
+  nth_error (fst (b_st b)) i = Some s -> s_done s = false -> s_chan s <> [] ->
+  pop_waiter i (b_wait b) = Some ((md, p), ws') -> target c md (fst (b_st b)) = Some i ->
+  let b' := bstep count split c cap b (BRecv now i) in
+  b_wait b' = ws' /\ snd (b_st b') = snd (b_st b) ++ [0%N]
+  /\ exists s', nth_error (fst (b_st b')) i = Some s' /\ In p (s_chan s') /\ s_done s' = false.
+Proof. exact (@progress_l). Qed.
+
+
+(* ---- translator obligations (T1 re-reads the Go source on every run: coq/Generated/C17Batch.v) ------------------ *)
+Theorem t1_metricDPC_is_metric_count : forall I (m : metric I) (s e h u g : Z),
+  let L := Z.of_nat (length (snd m)) in
+  (mi_kind (fst m) = MSummary -> s = L) ->
+  ((exists t, mi_kind (fst m) = MExpHistogram t) -> e = L) ->
+  ((exists t, mi_kind (fst m) = MHistogram t) -> h = L) ->
+  ((exists t b, mi_kind (fst m) = MSum t b) -> u = L) ->
+  (mi_kind (fst m) = MGauge -> g = L) ->
+  metricDPC (kind_code (mi_kind (fst m))) s e h u g = Z.of_nat (metric_count m).
+Proof. exact (@metricDPC_is_metric_count). Qed.
+
+Theorem t1_metric_types_distinct :
+  NoDup [MetricTypeEmpty; MetricTypeGauge; MetricTypeSum; MetricTypeHistogram;
+         MetricTypeExponentialHistogram; MetricTypeSummary].
+Proof. exact metric_types_distinct. Qed.
+
+Theorem t1_itemCount_hasTimer_cardinality :
+  (forall n, batchLogs_itemCount n = n /\ batchTraces_itemCount n = n /\ batchMetrics_itemCount n = n)
+  /\ (forall isnil, shard_hasTimer isnil = negb isnil)
+  /\ (forall R c t0, mks c = [] -> Z.of_nat (length (bp_init (R := R) c t0)) = singleShard_cardinality).
+Proof. exact (conj itemCount_is_counter (conj hasTimer_is_timer_created (@single_shard_cardinality))). Qed.
+
 Print Assumptions split_n_spec_logs.
 Print Assumptions split_n_spec_traces.
 Print Assumptions split_n_spec_metrics.
@@ -141,3 +207,11 @@ Print Assumptions bp_metadata_isolation.
 Print Assumptions bp_cardinality_bound.
 Print Assumptions bp_cardinality.
 Print Assumptions bp_cardinality_stale_refusal.
+Print Assumptions bp_shutdown_accounting.
+Print Assumptions bp_done_frozen.
+Print Assumptions bp_groups_distinct.
+Print Assumptions bb_refines.
+Print Assumptions bb_progress.
+Print Assumptions t1_metricDPC_is_metric_count.
+Print Assumptions t1_metric_types_distinct.
+Print Assumptions t1_itemCount_hasTimer_cardinality.
